@@ -15,7 +15,21 @@ TRUSTED = [
     "(prime_rabin_complete). Rejection of composites is NOT a theorem (false for a fixed set of bases: a strong pseudoprime to all the bases "
     "used is accepted); it is decided on the presented corpus only (class C), ground truth as before (deterministic Miller-Rabin below 2^80, "
     "supplied factor for larger composites, well-known primes - NIST/SEC field primes and Mersenne primes - marked P)",
-    "bn_smb_leg, bn_is_prime_basic, bn_is_prime_solov, bn_is_prime, prime generation: unchanged by this family",
+    "bn_smb_jac, additionally PROVED: the cofactor matrix of the approximation loop never wraps (entries within +-2^(w/2-2)) and has "
+    "determinant +-2^(w/2-2) (smb_jac_inner_matrix)",
+    "class A (Model/NtSmbPrime2.lean + the 512-entry table Model/NtSmbPrimeTab.lean transcribed from the C text; executed on every "
+    "`nt_prime basic` / `nt_prime prime` line): bn_is_prime_basic (a = 1 rejected, trial division by the whole table of the build: 512 entries "
+    "for w = 64, 48 for w = 8, `t == 0 && a != p`; negative and zero inputs as coded) and bn_is_prime (basic, then rabin). PROVED: every prime "
+    "is accepted by both (prime_basic_complete, prime_isprime_complete); a rejection by bn_is_prime_basic exhibits a proper divisor "
+    "(prime_basic_reject_sound). Acceptance of composites by trial division is within its documented contract (spec column admits 0 and 1)",
+    "bn_is_prime_solov: the 100 bases come from the random generator (not modelled here); the model takes the base list and the symbol function "
+    "as PARAMETERS; PROVED: every prime n > 2 is accepted for every list of bases in (0, n) provided the symbol function returns the Jacobi symbol "
+    "(prime_solov_complete; unconditional with the bn_smb_jac model for n < 2^w: prime_solov_complete_one_digit; for longer n the hypothesis is "
+    "the open smb_jac_exact). Driver: model column = 1 for prime inputs (by the theorem), for odd composites the model column is the implementation's "
+    "answer and only the specification judges (class C); a <= 2 and even a stay with the old case",
+    "the P token marks well-known primes (NIST/SEC field primes, Mersenne primes) and three Proth primes k*2^n+1 whose witnesses "
+    "a^((N-1)/2) = -1 mod N were recomputed when the generator was written",
+    "bn_smb_leg, prime generation: unchanged by this family",
 ]
 
 # the whole base table of the WSIZE=8 build (first 48 primes); at most 27 are ever used as bases
